@@ -183,7 +183,7 @@ prop(
     rule=("limit from {16,20,24,32,64,100,256,1024,4096(,8192,20000)}; extras: none / 1-6 random / dense range of 1-40 / many (to 1000), plus limit-1 (p=2/3) and limit-2 (p=1/2); "
           "kind and close-on-exec per descriptor; redirect plan random incl. shorthands and start-up input; 1-3 such starts in a row in the same process, each with its own limit (so the limit rises and falls between starts). Non-trivial: an inheritable (no close-on-exec) descriptor >= 3 existed, or the highest "
           "permitted number was open and inheritable. Distinct: hash of limit, descriptor numbers and the redirect plan."),
-    essential=dict(quick=["inheritable-extra-descriptor", "highest-permitted-descriptor-open", "hundreds-of-descriptors", "tiny-limit", "large-limit", "concurrent-starts", "several-starts-in-one-process", "fork-mode"]),
+    essential=dict(quick=["inheritable-extra-descriptor", "highest-permitted-descriptor-open", "hundreds-of-descriptors", "tiny-limit", "large-limit", "concurrent-starts", "several-starts-in-one-process", "fork-mode", "parent-0-2-partly-closed"]),
     assumptions=[
         "descriptors at or above the soft limit (possible only if the limit was lowered after opening them) are outside the property's 'up to the descriptor limit'",
         "the refusal branch for limits above 1 048 576 is reached by a getrlimit value fault in C04, not here",
